@@ -5,6 +5,7 @@ import M3d.Model.CollideCone
 import M3d.Model.CollideQuery
 import M3d.Model.CollideScale
 import M3d.Model.CollideAxis
+import M3d.Model.CollideBVH
 /-!
 Line-protocol handler for C07.  Core-only; runs the models of `M3d/Model/Collide.lean`
 * at `Rat` for the `…x` kinds (exact mode: dyadic inputs on which every Go float operation is exact),
@@ -41,6 +42,13 @@ Kinds (see notes/C07.md):
   profballx n (s0 s1)… minZ maxZ c r  profileCollider.SphereCollision (Rat, spec)
   msegx   G|A n (a b c)… s0 s1        3-D mesh collider.SegmentCollision (Rat)
   mseg2x  G|A n (s0 s1)… q0 q1        2-D mesh collider.SegmentCollision (Rat)
+  rect2x|mtritrix|msegx|mseg2x W m shape… n prims… query
+                                      mode W: BVHToCollider over a hand-built BVH whose branches have 2 or MORE children;
+                                      shape = m preorder tokens (`L` a leaf, `B k` a branch with k children), the
+                                      primitives in leaf order; the specification (all stored primitives) is printed
+                                      and refused with MODEL-NE-SPEC if the faithful n-ary hierarchy (`M3d/Model/
+                                      CollideBVH.lean`: every child converted, bounds folded over all children, the
+                                      bounds test at every node) answers differently
   reent3|reent2 <collider-kind> (fail | P nP m tok… A nA m tok… I m tok… O m tok…)
                                       an enumeration observed with a passive callback (P) and with a callback that
                                       queries the same collider before it returns (A), the answers of those nested
@@ -531,8 +539,46 @@ answers differently.  `tritrix` / `mtritrix`: `triTri` is the model of `Triangle
 then the segment is their intersection); for a mesh the number of segments is the number of triangles that
 report one (`M3d.C07.mesh_triangle_collisions`), in mode `G` checked against the faithful hierarchy. -/
 
+/-! ### hand-built BVHs with branches of any width (`M3d/Model/CollideBVH.lean`)
+
+Mode `W` of `rect2x / mseg2x / msegx / mtritrix`: the collider is `BVHToCollider(b)` for a `BVH` built by the harness
+(branches with 2..6 children, random partitions, flattened `NewBVHAreaDensity` trees).  The answer printed is the
+specification — what ALL stored primitives answer (`M3d.C07.bvh_rect_touches_iff`, `bvh_segment_touches_iff`,
+`bvh_segment_touches_iff_2d`, `bvh_triangle_collisions`) — and the faithful n-ary hierarchy is run next to it. -/
+
+/-- `m tok…`: `L` = a leaf child, `B k` = a branch with `k` children -/
+def pShape (ws : List String) : Option (List (Option Nat) × List String) := do
+  let (m, ws) ← pNat ws
+  if ws.length < m then none
+  let rec go : Nat → List String → Option (List (Option Nat))
+    | _, [] => some []
+    | 0, _ => none
+    | f + 1, "L" :: r => (go f r).map (none :: ·)
+    | f + 1, "B" :: k :: r => k.toNat?.bind fun k => (go f r).map (some k :: ·)
+    | _ + 1, _ => none
+  let shape ← go (m + 1) (ws.take m)
+  some (shape, ws.drop m)
+
+/-- the BVH of a shape over the primitives in leaf order: a single leaf, or the children of the root branch -/
+def bvhOfShape {L : Type} (shape : List (Option Nat)) (prims : List L) : Option (Sum L (WTree L)) :=
+  match shape, prims with
+  | [none], [p] => some (.inl p)
+  | some k :: toks, prims =>
+    if k == 0 then none else
+    match parseKids (shape.length + 2) k toks prims with
+    | some (t, [], []) => some (.inr t)
+    | _ => none
+  | _, _ => none
+
+/-- mode token, and for `W` the shape -/
+def pMode (ws : List String) : Option (String × Option (List (Option Nat)) × List String) :=
+  match ws with
+  | "W" :: ws => (pShape ws).map fun (sh, ws) => ("W", some sh, ws)
+  | m :: ws => some (m, none, ws)
+  | [] => none
+
 def hRect2 (ws : List String) : Option String := do
-  let (mode, ws) ← match ws with | m :: ws => some (m, ws) | [] => none
+  let (mode, shape, ws) ← pMode ws
   let (n, ws) ← pNat ws
   let (segs, ws) ← pSegs n ws
   let (lo, ws) ← pV2 parseRat ws
@@ -547,6 +593,10 @@ def hRect2 (ws : List String) : Option String := do
     | none => if n == 0 then some (boolStr spec) else none
     | some t => some (verdict spec (meshRect2 sqrtQ epsQ t lo hi))
   else if mode == "A" then some (boolStr spec)
+  else if mode == "W" then
+    match ← bvhOfShape (← shape) segs with
+    | .inl _ => some (boolStr spec)
+    | .inr t => some (verdict spec (bvhRect2 sqrtQ epsQ t lo hi))
   else none
 
 def pTri3 : P Q (Tri3 Q) := fun ws => do
@@ -562,7 +612,7 @@ def hTriTri (ws : List String) : Option String := do
   some (match triTri sqrtQ epsQ t t1 with | none => "0" | some _ => "1")
 
 def hMeshTriTri (ws : List String) : Option String := do
-  let (mode, ws) ← match ws with | m :: ws => some (m, ws) | [] => none
+  let (mode, shape, ws) ← pMode ws
   let (n, ws) ← pNat ws
   let (tris, ws) ← pTris n ws
   let (q, ws) ← pTri3 ws
@@ -575,13 +625,19 @@ def hMeshTriTri (ws : List String) : Option String := do
       let model := (meshTriTri sqrtQ epsQ t q).length
       some (if model == spec then toString spec else s!"MODEL-NE-SPEC spec={spec} model={model}")
   else if mode == "A" then some (toString spec)
+  else if mode == "W" then
+    match ← bvhOfShape (← shape) tris with
+    | .inl _ => some (toString spec)
+    | .inr t =>
+      let model := (bvhTriTri sqrtQ epsQ t q).length
+      some (if model == spec then toString spec else s!"MODEL-NE-SPEC spec={spec} model={model}")
   else none
 
 /-- `msegx`: 3-D mesh collider `.SegmentCollision(s0, s1)` = some triangle's `Triangle.SegmentCollision`
 (`M3d.C07.mesh_segment_touches_iff`, `segment_touches_iff_triangle`); mode `G` also runs the faithful hierarchy with
 the `rayCollisionWithBounds` test at every node. -/
 def hMeshSeg3 (ws : List String) : Option String := do
-  let (mode, ws) ← match ws with | m :: ws => some (m, ws) | [] => none
+  let (mode, shape, ws) ← pMode ws
   let (n, ws) ← pNat ws
   let (tris, ws) ← pTris n ws
   let (s0, ws) ← pV3 parseRat ws
@@ -593,12 +649,16 @@ def hMeshSeg3 (ws : List String) : Option String := do
     | none => if n == 0 then some (boolStr spec) else none
     | some t => some (verdict spec (meshSegment3 sqrtQ epsQ t s0 s1))
   else if mode == "A" then some (boolStr spec)
+  else if mode == "W" then
+    match ← bvhOfShape (← shape) tris with
+    | .inl _ => some (boolStr spec)
+    | .inr t => some (verdict spec (bvhSegment3 sqrtQ epsQ t s0 s1))
   else none
 
 /-- `mseg2x`: 2-D mesh collider `.SegmentCollision(q)` (`M3d.C07.mesh_segment_touches_iff_2d`,
 `segment_touches_iff_segment2d`) -/
 def hMeshSeg2 (ws : List String) : Option String := do
-  let (mode, ws) ← match ws with | m :: ws => some (m, ws) | [] => none
+  let (mode, shape, ws) ← pMode ws
   let (n, ws) ← pNat ws
   let (segs, ws) ← pSegs n ws
   let (q0, ws) ← pV2 parseRat ws
@@ -611,6 +671,10 @@ def hMeshSeg2 (ws : List String) : Option String := do
     | none => if n == 0 then some (boolStr spec) else none
     | some t => some (verdict spec (meshSegment2 sqrtQ epsQ t q0 q1))
   else if mode == "A" then some (boolStr spec)
+  else if mode == "W" then
+    match ← bvhOfShape (← shape) segs with
+    | .inl _ => some (boolStr spec)
+    | .inr t => some (verdict spec (bvhSegment2 sqrtQ epsQ t q0 q1))
   else none
 
 /-! ### re-entrant callbacks, scaled directions (`M3d/Model/CollideScale.lean`) -/
